@@ -50,25 +50,31 @@ type p2pRig struct {
 	ckpts   []chaincfg.Checkpoint
 	capAll  int
 	// bookkeeping for oracles
-	banUntil    map[string]time.Time // model of bans (host -> expiry on the simulated clock)
-	forbidden   map[Hash32]bool
-	offered     map[Hash32]bool // every header some node put on the wire
-	lastGH      map[int]int     // per conn: number of getheaders already checked
-	healing     bool
-	fresh       bool
-	disableCk   bool
-	nGetHdrs    int
-	nReplies    int
-	nFaults     int
-	announced   int
-	reqAfterContra map[int]int
-	focus     string
-	preload   map[Hash32]bool
-	admitted  map[string][]*nodeConn
-	ckLast    int
-	prevLongest   map[string]bool
-	prevTipHeight int
-	experimental  bool
+	banUntil          map[string]time.Time // model of bans (host -> expiry on the simulated clock)
+	forbidden         map[Hash32]bool
+	offered           map[Hash32]bool // every header some node put on the wire
+	lastGH            map[int]int     // per conn: number of getheaders already checked
+	healing           bool
+	fresh             bool
+	disableCk         bool
+	nGetHdrs          int
+	nReplies          int
+	nFaults           int
+	instSeq           int64
+	inCoStep          bool
+	everLongest       map[string]bool // every header that was on the longest chain at some quiescent point
+	startTip          int             // height of the stored tip when the service was started (checkpoints at or below it count as passed)
+	replayingDeferred bool
+	nodeHungUp        bool // a scripted node closed its connection while reacting (settle waits once more)
+	announced         int
+	reqAfterContra    map[int]int
+	focus             string
+	preload           map[Hash32]bool
+	admitted          map[string][]*nodeConn
+	ckLast            int
+	prevLongest       map[string]bool
+	prevTipHeight     int
+	experimental      bool
 }
 
 func (g *p2pRig) now() time.Time { return time.Now() }
@@ -94,7 +100,7 @@ func p2psimExec(r *Run) {
 
 func p2psimRun(r *Run) {
 	t := r.T
-	g := &p2pRig{r: r, t: t, banUntil: map[string]time.Time{}, forbidden: map[Hash32]bool{}, offered: map[Hash32]bool{}, lastGH: map[int]int{}, reqAfterContra: map[int]int{}}
+	g := &p2pRig{r: r, t: t, banUntil: map[string]time.Time{}, forbidden: map[Hash32]bool{}, offered: map[Hash32]bool{}, lastGH: map[int]int{}, reqAfterContra: map[int]int{}, everLongest: map[string]bool{}}
 	g.start = time.Now()
 	g.tree = NewModel(genesisRaw())
 	focus := r.Prop
@@ -198,6 +204,10 @@ func p2psimRun(r *Run) {
 		n := &simNode{idx: i, ip: net.IPv4(byte(20+i), byte(10+i), 1, byte(1+i)), cap: g.capAll, tree: g.tree, silentAt: -1, closeAt: -1, forbidAt: -1,
 			nonce: uint64(1000 + 100*i), announce: []string{"inv", "headers"}[t.Draw(2, "announce-mode")]}
 		n.skew = []time.Duration{0, 5 * time.Second, -5 * time.Second, 20 * time.Minute, -20 * time.Minute}[t.Pick([]int{60, 10, 10, 10, 10}, "skew")]
+		// an inv announcement may list the block's most recent ancestors before it (oldest first, as a node
+		// announcing several blocks at once does) and a transaction entry after it
+		n.invTrail = t.Pick([]int{55, 25, 20}, "inv-trail")
+		n.invTx = t.Chance(1, 4, "inv-tx")
 		if i == 0 {
 			n.role, n.best = "honest", honestChain[L-1]
 			g.honest = n
@@ -227,7 +237,7 @@ func p2psimRun(r *Run) {
 	}
 	roles := []string{}
 	for _, n := range g.nodes {
-		roles = append(roles, fmt.Sprintf("n%d=%s@h%d/%s", n.idx, n.role, n.best.Height, n.announce))
+		roles = append(roles, fmt.Sprintf("n%d=%s@h%d/%s+%d", n.idx, n.role, n.best.Height, n.announce, n.invTrail))
 	}
 	r.Cfg["nodes"] = roles
 	r.Cfg["chain"] = L
@@ -269,6 +279,11 @@ func p2psimRun(r *Run) {
 			g.preload[h.Hash] = true
 		}
 	}
+	for _, row := range w.Snapshot() {
+		if row.State == LLongest && int(row.Height) > g.startTip {
+			g.startTip = int(row.Height)
+		}
+	}
 	g.lis = newSimListener("0.0.0.0:8333")
 	p2putil.SimListeners = func() ([]net.Listener, error) { return []net.Listener{g.lis}, nil }
 	oldLookup, oldDial := config.Lookup, config.Dial
@@ -304,7 +319,7 @@ func p2psimRun(r *Run) {
 			for _, n := range extra {
 				r.Step++
 				c := g.connect(n)
-				c.nodeEnd.Deliver(0)
+				g.deliver(c, 0)
 				g.afterDeliver(c)
 				g.settle()
 			}
@@ -324,7 +339,7 @@ func p2psimRun(r *Run) {
 		for i := 0; i < 8; i++ {
 			r.Step++
 			c := g.connect(extra[t.Draw(len(extra), "flood-again")])
-			c.nodeEnd.Deliver(0)
+			g.deliver(c, 0)
 			g.afterDeliver(c)
 			g.settle()
 		}
@@ -382,8 +397,32 @@ func (g *p2pRig) shutdown() {
 }
 
 // connect opens a connection from node n to the service (inbound for the service); the node speaks first.
+// uniqueInstant moves the simulated clock to an instant whose sub-second part no earlier connect or delivery had.
+// Every timer the service starts in reaction (negotiation, ping and stall tickers of a peer) then has its own phase
+// and never fires at the same instant as those of other peers or as the sync manager's ticker, which began at a whole
+// second: the order in which goroutines woken at ONE instant run is not the simulator's to decide.
+func (g *p2pRig) uniqueInstant() {
+	if g.inCoStep {
+		return // a co-scheduled step happens at one instant, on purpose
+	}
+	g.instSeq++
+	target := time.Duration((g.instSeq*7919)%1000000) * time.Microsecond
+	frac := time.Duration(time.Now().UnixNano() % int64(time.Second))
+	if d := (target - frac + time.Second) % time.Second; d > 0 {
+		time.Sleep(d)
+		synctest.Wait()
+	}
+}
+
+// deliver hands k (<=0: all) pending bytes of the node's end to the service, at an instant of its own.
+func (g *p2pRig) deliver(c *nodeConn, k int) int {
+	g.uniqueInstant()
+	return c.nodeEnd.Deliver(k)
+}
+
 func (g *p2pRig) connect(n *simNode) *nodeConn {
 	g.connSeq++
+	g.uniqueInstant()
 	port := 40000 + g.connSeq
 	nodeEnd, svcEnd := simPipe(n.addr(port), &net.TCPAddr{IP: net.IPv4(10, 0, 0, 1), Port: 8333})
 	nodeEnd.SetGated(true)
@@ -407,7 +446,33 @@ func (g *p2pRig) liveConns(pred func(*nodeConn) bool) []*nodeConn {
 
 // settle waits for quiescence, lets every node consume and answer what the service wrote, and checks invariants.
 func (g *p2pRig) settle() {
-	synctest.Wait()
+	// a scripted node that hangs up while reacting wakes the service again; the step only ends once the service
+	// has come to rest after the last such reaction (otherwise the next event would race with the clean-up)
+	for round := 0; round < 16; round++ {
+		synctest.Wait()
+		g.nodeHungUp = false
+		g.pump()
+		if !g.nodeHungUp {
+			break
+		}
+	}
+	g.admissionVerdicts()
+	g.invariants()
+	g.prevLongest = map[string]bool{}
+	g.prevTipHeight = 0
+	for hs, row := range g.w.Snapshot() {
+		if row.State == LLongest {
+			g.prevLongest[hs] = true
+			g.everLongest[hs] = true
+			if int(row.Height) > g.prevTipHeight {
+				g.prevTipHeight = int(row.Height)
+			}
+		}
+	}
+}
+
+// pump lets every scripted node react to what the service has written to it.
+func (g *p2pRig) pump() {
 	for _, c := range g.conns {
 		if c.closed || c.dead {
 			continue
@@ -415,10 +480,12 @@ func (g *p2pRig) settle() {
 		if !c.silent && len(c.deferred) > 0 {
 			d := c.deferred
 			c.deferred = nil
+			g.replayingDeferred = true
 			for _, m := range d {
 				c.msgsIn--
 				g.nodeReceive(c, m)
 			}
+			g.replayingDeferred = false
 		}
 		// whether the last messages the service queued still made it onto the wire before it closed the connection
 		// is a race inside the service; what arrives in the step in which the close is observed is dropped unseen
@@ -433,18 +500,6 @@ func (g *p2pRig) settle() {
 			g.nodeReceive(c, m)
 		}
 	}
-	g.admissionVerdicts()
-	g.invariants()
-	g.prevLongest = map[string]bool{}
-	g.prevTipHeight = 0
-	for hs, row := range g.w.Snapshot() {
-		if row.State == LLongest {
-			g.prevLongest[hs] = true
-			if int(row.Height) > g.prevTipHeight {
-				g.prevTipHeight = int(row.Height)
-			}
-		}
-	}
 }
 
 // nodeReceive is the scripted node's reaction to one message of the service.
@@ -453,6 +508,9 @@ func (g *p2pRig) nodeReceive(c *nodeConn, m wire.Message) {
 	n := c.node
 	c.msgsIn++
 	c.recv = append(c.recv, recvMsg{r.Step, m})
+	if hm, ok := m.(*wire.MsgHeaders); ok && !g.replayingDeferred {
+		c.hdrReplies = append(c.hdrReplies, hm) // (what the service answered, whether or not the node is stalling)
+	}
 	// keep-alive and handshake messages race with disconnects at one simulated instant (a ping may or may not be
 	// written before the close); they carry no meaning for the properties and stay out of the event log
 	switch m.(type) {
@@ -464,6 +522,7 @@ func (g *p2pRig) nodeReceive(c *nodeConn, m wire.Message) {
 		r.Logf("%s closes (disconnector) after %d messages", c, c.msgsIn)
 		_ = c.nodeEnd.Close()
 		c.closed = true
+		g.nodeHungUp = true
 		g.nFaults++
 		r.Fault("node-disconnect-mid-sync")
 		return
@@ -478,6 +537,11 @@ func (g *p2pRig) nodeReceive(c *nodeConn, m wire.Message) {
 		// a stalled node does not lose what it was sent; it gets to it when it resumes
 		if _, isPing := m.(*wire.MsgPing); !isPing {
 			c.deferred = append(c.deferred, m)
+		}
+		// what the service emitted is judged against the store of the moment it was emitted, not of the moment the
+		// node gets round to answering
+		if gh, ok := m.(*wire.MsgGetHeaders); ok {
+			g.checkEmittedGetHeaders(c, gh)
 		}
 		return
 	}
@@ -502,10 +566,39 @@ func (g *p2pRig) nodeReceive(c *nodeConn, m wire.Message) {
 	case *wire.MsgGetHeaders:
 		c.getHdrs = append(c.getHdrs, msg)
 		g.nGetHdrs++
-		g.checkEmittedGetHeaders(c, msg)
+		if !g.replayingDeferred {
+			g.checkEmittedGetHeaders(c, msg)
+		}
 		reply := n.headersReply(msg)
 		hm := wire.NewMsgHeaders()
+		// with a single checkpoint the service is waiting for it for as long as its header is not stored, whatever
+		// stop hash it sends (with several, the recorded pointer-lag finding blurs which one it is waiting for)
+		var pendingCk *chaincfg.Checkpoint
+		var storeNow map[string]Row
+		if len(g.ckpts) == 1 && !g.disableCk && g.startTip < int(g.ckpts[0].Height) {
+			storeNow = g.w.Snapshot()
+			if _, have := storeNow[g.ckpts[0].Hash.String()]; !have {
+				pendingCk = &g.ckpts[0]
+			}
+		}
 		for i, h := range reply {
+			// (a forbidden header is rejected before any checkpoint comparison, also at a checkpoint's height)
+			if pendingCk != nil && !g.forbidden[h.Hash] && h.Height == pendingCk.Height && h.Hash != Hash32(*pendingCk.Hash) && c.misbehaved == "" {
+				c.misbehaved = "contra"
+				if _, stored := storeNow[h.HashStr()]; stored {
+					// the contradicting header is in the store already (stored before it was compared, when it
+					// was first delivered): a re-delivery - recorded finding
+					c.misbehaved = "contra|already-stored"
+					r.Probe("stored-contradiction-delivered-again")
+				}
+				r.Probe("checkpoint-contradicted")
+				if Hash32(msg.HashStop) != Hash32(*pendingCk.Hash) {
+					r.Probe("checkpoint-contradicted-unasked")
+				}
+				if i > 0 {
+					r.Probe("misbehaviour-after-accepted-header")
+				}
+			}
 			_ = hm.AddBlockHeader(toWireHeader(h))
 			g.offered[h.Hash] = true
 			if g.forbidden[h.Hash] && c.misbehaved == "" {
@@ -550,11 +643,8 @@ func (g *p2pRig) nodeReceive(c *nodeConn, m wire.Message) {
 		}
 		r.Logf("%s getheaders(loc=%d,stop=%s) -> %d headers", c, len(msg.BlockLocatorHashes), short(Hash32(msg.HashStop)), len(hm.Headers))
 		c.send(hm)
-	case *wire.MsgHeaders:
-		c.hdrReplies = append(c.hdrReplies, msg)
 	}
 }
-
 
 // step performs one scheduler event of the fault phase.
 func (g *p2pRig) step() {
@@ -617,8 +707,16 @@ func (g *p2pRig) step() {
 		}
 		// directed sequence (faults placed where they create in-flight state): two offences of one host from two of
 		// its connections with time passing in between, then a new connection of that host
-		if len(fc) >= 2 && g.w.Cfg.P2P.BanDuration <= time.Hour && g.focus != "C06" {
-			evs = append(evs, ev{"double-ban", fc[0], nil, 10})
+		var sameNode []*nodeConn // two connections of ONE offending node
+		for _, a := range fc {
+			for _, b := range fc {
+				if a != b && a.node == b.node && len(sameNode) == 0 {
+					sameNode = []*nodeConn{a, b}
+				}
+			}
+		}
+		if len(sameNode) == 2 && g.w.Cfg.P2P.BanDuration <= time.Hour && g.focus != "C06" {
+			evs = append(evs, ev{"double-ban", sameNode[0], nil, 10})
 		}
 	}
 	ws := make([]int, len(evs))
@@ -636,7 +734,7 @@ func (g *p2pRig) step() {
 			k = 1 + t.Draw(e.c.nodeEnd.PendingOut(), "fragment-bytes")
 			r.Fault("fragmented-delivery")
 		}
-		n := e.c.nodeEnd.Deliver(k)
+		n := g.deliver(e.c, k)
 		r.Logf("deliver %s %d bytes", e.c, n)
 		g.afterDeliver(e.c)
 	case "connect":
@@ -665,8 +763,10 @@ func (g *p2pRig) step() {
 		hm := wire.NewMsgHeaders()
 		_ = hm.AddBlockHeader(toWireHeader(e.c.node.forbidden))
 		g.offered[e.c.node.forbidden.Hash] = true
+		if e.c.misbehaved == "" || e.c.misDelivered { // (an offence still on its way stays the one that counts)
+			e.c.misbehaved, e.c.misDelivered, e.c.misEnd = "forbidden", false, 0
+		}
 		e.c.send(hm)
-		e.c.misbehaved, e.c.misDelivered = "forbidden", false
 		r.Logf("%s pushes its forbidden header unasked", e.c)
 		r.Probe("forbidden-header-pushed")
 	case "double-ban":
@@ -678,11 +778,15 @@ func (g *p2pRig) step() {
 			hm := wire.NewMsgHeaders()
 			_ = hm.AddBlockHeader(toWireHeader(c.node.forbidden))
 			g.offered[c.node.forbidden.Hash] = true
+			if c.misbehaved == "" || c.misDelivered {
+				c.misbehaved, c.misDelivered, c.misEnd = "forbidden", false, 0
+			}
 			c.send(hm)
-			c.misbehaved, c.misDelivered = "forbidden", false
-			c.nodeEnd.Deliver(0)
-			g.afterDeliver(c)
-			g.settle()
+			for k := 0; k < 8 && c.nodeEnd.PendingOut() > 0 && !c.dead; k++ {
+				g.deliver(c, 0)
+				g.afterDeliver(c)
+				g.settle()
+			}
 		}
 		r.Logf("double-ban: %s offends", fc[0])
 		offend(fc[0])
@@ -699,7 +803,7 @@ func (g *p2pRig) step() {
 		g.advance(gap2)
 		c3 := g.connect(e.c.node)
 		r.Logf("double-ban: connect %s", c3)
-		c3.nodeEnd.Deliver(0)
+		g.deliver(c3, 0)
 		g.afterDeliver(c3)
 	case "partition":
 		e.c.partitioned = !e.c.partitioned
@@ -735,6 +839,9 @@ func (g *p2pRig) coStep() {
 	r, t := g.r, g.t
 	r.Logf("co-step")
 	r.Probe("co-step")
+	g.uniqueInstant()
+	g.inCoStep = true
+	defer func() { g.inCoStep = false }()
 	done := make(chan struct{})
 	nreads := t.Range(1, 3, "co-reads")
 	go func() {
@@ -749,14 +856,22 @@ func (g *p2pRig) coStep() {
 	if t.Chance(2, 3, "co-connect") {
 		n := g.nodes[t.Draw(len(g.nodes), "co-node")]
 		c := g.connect(n)
-		c.nodeEnd.Deliver(0)
+		c.nodeEnd.DeliverThrough()
 		g.afterDeliver(c)
+	}
+	// ... a connected node asks for headers (the service consults its sync state on that peer's goroutine) ...
+	if hs := g.liveConns(func(c *nodeConn) bool { return c.handshaken() && !c.partitioned }); len(hs) > 0 && t.Chance(1, 2, "co-getheaders") {
+		c := hs[t.Draw(len(hs), "co-getheaders-idx")]
+		gh := wire.NewMsgGetHeaders()
+		gen, _ := chainhash.NewHashFromStr(g.tree.Genesis.HashStr())
+		_ = gh.AddBlockLocatorHash(gen)
+		c.send(gh)
 	}
 	// ... while pending bytes of the others are delivered and one of them goes away
 	live := g.liveConns(func(c *nodeConn) bool { return !c.partitioned })
 	for _, c := range live {
 		if c.nodeEnd.PendingOut() > 0 {
-			c.nodeEnd.Deliver(0)
+			c.nodeEnd.DeliverThrough()
 			g.afterDeliver(c)
 		}
 	}
@@ -836,8 +951,21 @@ func (g *p2pRig) announce(n *simNode, nb *MHeader) {
 		}
 		if seg == nil {
 			inv := wire.NewMsgInv()
-			hh := chainhash.Hash(nb.Hash)
-			_ = inv.AddInvVect(wire.NewInvVect(wire.InvTypeBlock, &hh))
+			var trail []*MHeader
+			for h := nb.Parent; h != nil && h.Parent != nil && len(trail) < n.invTrail; h = h.Parent {
+				trail = append([]*MHeader{h}, trail...)
+			}
+			for _, h := range append(trail, nb) {
+				hh := chainhash.Hash(h.Hash)
+				_ = inv.AddInvVect(wire.NewInvVect(wire.InvTypeBlock, &hh))
+			}
+			if len(trail) > 0 {
+				g.r.Probe("inv-with-several-blocks")
+			}
+			if n.invTx {
+				th := chainhash.Hash(g.uniqueHash("inv-tx"))
+				_ = inv.AddInvVect(wire.NewInvVect(wire.InvTypeTx, &th))
+			}
 			c.send(inv)
 			continue
 		}
@@ -905,6 +1033,17 @@ func (g *p2pRig) checkEmittedGetHeaders(c *nodeConn, gh *wire.MsgGetHeaders) {
 		}
 	}
 	var hs []int
+	// the first request on a connection may have been built in an earlier step and queued until the handshake was
+	// complete: its entries are held against every longest chain there has been since
+	if c.nGhChecked == 0 && !reorg {
+		for _, l := range gh.BlockLocatorHashes {
+			if row, ok := rows[l.String()]; ok && row.State != LLongest && g.everLongest[l.String()] {
+				r.Probe("queued-getheaders-built-before-a-reorg")
+				reorg = true
+				break
+			}
+		}
+	}
 	if reorg {
 		r.Probe("getheaders-in-reorg-step-not-checked")
 	} else {
@@ -929,7 +1068,16 @@ func (g *p2pRig) checkEmittedGetHeaders(c *nodeConn, gh *wire.MsgGetHeaders) {
 		}
 		// the tip may have moved on within the step after the request was built: the first entry must be a header
 		// that was the tip at some moment of the step
-		if tipRow != nil && (hs[0] > int(tipRow.Height) || hs[0] < g.prevTipHeight) {
+		// (the first request on a connection may have been built earlier and queued until the handshake was
+		// complete - the peer's output queue only starts after the verack; for it "was the tip once" is all that
+		// can be said: every longest-chain header was)
+		c.nGhChecked++
+		lo := g.prevTipHeight
+		if c.nGhChecked == 1 {
+			lo = 0
+			r.Probe("first-getheaders-of-a-connection")
+		}
+		if tipRow != nil && (hs[0] > int(tipRow.Height) || hs[0] < lo) {
 			r.Fail("C13", "locator", "wire|first-not-tip", "getheaders sent to %s: locator starts at height %d, the tip was at %d before this step and is at %d now", c, hs[0], g.prevTipHeight, tipRow.Height)
 		}
 		if len(hs) == 1 && hs[0] != 0 {
@@ -970,15 +1118,26 @@ func (g *p2pRig) checkEmittedGetHeaders(c *nodeConn, gh *wire.MsgGetHeaders) {
 				isCk = true
 			}
 		}
-		if !stop.IsZero() && !isCk {
+		// (the experimental engine answers an inv with a request that stops at the announced block: bounded by what
+		// the peer itself announced, which is not the statement's concern)
+		if !stop.IsZero() && !isCk && !g.experimental {
 			r.Fail("C07", "stop-hash", "not-a-checkpoint", "getheaders to %s (locator from height %d) carries stop %s, which is neither zero nor a checkpoint", c, hs[0], short(stop))
 		}
 		// "after the last one": the header matching the last checkpoint has been received and is on the longest chain
 		lastCkOnChain := g.prevLongest[g.ckpts[len(g.ckpts)-1].Hash.String()]
-		if hs[0] >= lastCk && lastCkOnChain && !stop.IsZero() {
+		if hs[0] >= lastCk && lastCkOnChain && !stop.IsZero() && !(g.experimental && !isCk) {
 			nck := "checkpoints=1"
 			if len(g.ckpts) >= 2 {
 				nck = "checkpoints>=2"
+			} else {
+				// (after a misbehaviour the matching checkpoint header may arrive in a batch that is cut short by a
+				// forbidden header, or be stored as a stale sibling of the contradicting one: both leave the pointer
+				// behind as well; recorded separately)
+				for _, x := range g.conns {
+					if x.misDelivered {
+						nck = "checkpoints=1|after-misbehaviour"
+					}
+				}
 			}
 			r.Fail("C07", "stop-hash", "past-last-checkpoint|"+nck, "the request to %s starts at height %d, at/after the last checkpoint (%d of %d checkpoints), but still carries stop %s", c, hs[0], lastCk, len(g.ckpts), short(stop))
 		}
@@ -994,34 +1153,55 @@ func (g *p2pRig) checkEmittedGetHeaders(c *nodeConn, gh *wire.MsgGetHeaders) {
 // nodeAsksGetHeaders: a scripted node sends a generated getheaders; the answer is checked when it arrives.
 func (g *p2pRig) nodeAsksGetHeaders(c *nodeConn) {
 	r, t := g.r, g.t
+	if c.nodeEnd.PendingOut() > 0 {
+		// earlier messages of this node are still on their way (one message per delivery): they go first
+		n := g.deliver(c, 0)
+		r.Logf("deliver %s %d bytes", c, n)
+		g.afterDeliver(c)
+		return
+	}
 	rows := g.w.Snapshot()
 	var all []Row
 	for _, row := range rows {
 		all = append(all, row)
 	}
 	sort.Slice(all, func(i, j int) bool { return all[i].Hash < all[j].Hash })
-	gh := wire.NewMsgGetHeaders()
-	n := t.Range(1, 6, "wire-loc-len")
-	for i := 0; i < n; i++ {
-		var hh chainhash.Hash
-		if t.Chance(1, 5, "wire-loc-unknown") {
-			hh = chainhash.Hash(g.uniqueHash("wire-unknown"))
-		} else {
-			p, _ := chainhash.NewHashFromStr(all[t.Draw(len(all), "wire-loc")].Hash)
-			hh = *p
-		}
-		_ = gh.AddBlockLocatorHash(&hh)
+	// one request, or - a third of the time - two or three back to back in one segment (a node that pipelines its
+	// requests): every one of them has its own answer, in order
+	nReq := 1
+	if t.Chance(1, 3, "wire-pipelined") {
+		nReq = t.Range(2, 3, "wire-pipelined-n")
+		r.Probe("pipelined-getheaders")
 	}
-	if t.Chance(1, 2, "wire-stop") {
-		p, _ := chainhash.NewHashFromStr(all[t.Draw(len(all), "wire-stop-h")].Hash)
-		if p.String() != g.tree.Genesis.HashStr() { // stop = genesis is a recorded known finding of the service part
-			gh.HashStop = *p
+	var reqs []*wire.MsgGetHeaders
+	for q := 0; q < nReq; q++ {
+		gh := wire.NewMsgGetHeaders()
+		n := t.Range(1, 6, "wire-loc-len")
+		for i := 0; i < n; i++ {
+			var hh chainhash.Hash
+			if t.Chance(1, 5, "wire-loc-unknown") {
+				hh = chainhash.Hash(g.uniqueHash("wire-unknown"))
+			} else {
+				p, _ := chainhash.NewHashFromStr(all[t.Draw(len(all), "wire-loc")].Hash)
+				hh = *p
+			}
+			_ = gh.AddBlockLocatorHash(&hh)
 		}
+		if t.Chance(1, 2, "wire-stop") {
+			p, _ := chainhash.NewHashFromStr(all[t.Draw(len(all), "wire-stop-h")].Hash)
+			if p.String() != g.tree.Genesis.HashStr() { // stop = genesis is a recorded known finding of the service part
+				gh.HashStop = *p
+			}
+		}
+		reqs = append(reqs, gh)
+		r.Logf("%s asks getheaders loc=%d stop=%s", c, n, gh.HashStop.String()[:8])
 	}
 	before := len(c.hdrReplies)
-	c.send(gh)
-	c.nodeEnd.Deliver(0)
-	r.Logf("%s asks getheaders loc=%d stop=%s", c, n, gh.HashStop.String()[:8])
+	for _, gh := range reqs {
+		c.send(gh)
+	}
+	g.uniqueInstant()
+	c.nodeEnd.DeliverThrough()
 	synctest.Wait()
 	for _, m := range c.parse() {
 		g.nodeReceive(c, m)
@@ -1030,7 +1210,7 @@ func (g *p2pRig) nodeAsksGetHeaders(c *nodeConn) {
 	if len(rows2) != len(rows) {
 		return // ingestion moved the store meanwhile; the answer is not comparable
 	}
-	// expected answer from the rows
+	// expected answers from the rows
 	var lc []Row
 	for _, row := range rows {
 		if row.State == LLongest {
@@ -1038,36 +1218,45 @@ func (g *p2pRig) nodeAsksGetHeaders(c *nodeConn) {
 		}
 	}
 	sort.Slice(lc, func(i, j int) bool { return lc[i].Height < lc[j].Height })
-	start := 0
-	for _, l := range gh.BlockLocatorHashes {
-		if row, ok := rows[l.String()]; ok && row.State == LLongest && int(row.Height) > start {
-			start = int(row.Height)
-		}
-	}
-	end := len(lc) - 1
-	if gh.HashStop != (chainhash.Hash{}) {
-		if row, ok := rows[gh.HashStop.String()]; ok && row.State == LLongest {
-			end = int(row.Height)
-		}
-	}
-	var exp []string
-	for i := start + 1; i <= end && len(exp) < 2000; i++ {
-		exp = append(exp, lc[i].Hash)
-	}
 	if len(c.hdrReplies) == before {
 		// the service answers getheaders only when it considers itself current; silence is then legitimate
 		r.Probe("node-getheaders-unanswered")
 		return
 	}
 	r.Probe("node-getheaders-answered")
-	got := c.hdrReplies[len(c.hdrReplies)-1]
-	if len(got.Headers) != len(exp) {
-		r.Fail("C13", "getheaders", "wire|count", "service answered a node's getheaders with %d headers, the store implies %d (start %d, end %d)", len(got.Headers), len(exp), start, end)
+	if len(c.hdrReplies)-before != nReq {
+		r.Fail("C13", "getheaders", "wire|answers", "%d getheaders in one segment got %d answers", nReq, len(c.hdrReplies)-before)
 	}
-	for i, h := range got.Headers {
-		bh := h.BlockHash()
-		if bh.String() != exp[i] {
-			r.Fail("C13", "getheaders", "wire|content", "header %d of the service's answer is %s, the store implies %s", i, bh.String()[:8], exp[i][:8])
+	for q, gh := range reqs {
+		start := 0
+		for _, l := range gh.BlockLocatorHashes {
+			if row, ok := rows[l.String()]; ok && row.State == LLongest && int(row.Height) > start {
+				start = int(row.Height)
+			}
+		}
+		end := len(lc) - 1
+		if gh.HashStop != (chainhash.Hash{}) {
+			if row, ok := rows[gh.HashStop.String()]; ok && row.State == LLongest {
+				end = int(row.Height)
+			}
+		}
+		var exp []string
+		for i := start + 1; i <= end && len(exp) < 2000; i++ {
+			exp = append(exp, lc[i].Hash)
+		}
+		got := c.hdrReplies[before+q]
+		det := "wire"
+		if nReq > 1 {
+			det = "wire|pipelined"
+		}
+		if len(got.Headers) != len(exp) {
+			r.Fail("C13", "getheaders", det+"|count", "service answered getheaders %d of %d of a node with %d headers, the store implies %d (start %d, end %d)", q+1, nReq, len(got.Headers), len(exp), start, end)
+		}
+		for i, h := range got.Headers {
+			bh := h.BlockHash()
+			if bh.String() != exp[i] {
+				r.Fail("C13", "getheaders", det+"|content", "getheaders %d of %d: header %d of the service's answer is %s, the store implies %s", q+1, nReq, i, bh.String()[:8], exp[i][:8])
+			}
 		}
 	}
 }
@@ -1088,8 +1277,8 @@ func (g *p2pRig) advance(d time.Duration) {
 		// one connection at a time, run to quiescence in between: deliveries to different connections must not
 		// race inside one step (which peer completes its handshake first decides the sync peer)
 		for _, c := range g.liveConns(func(c *nodeConn) bool { return !c.partitioned }) {
-			if c.nodeEnd.PendingOut() > 0 {
-				c.nodeEnd.Deliver(0)
+			for k := 0; k < 8 && c.nodeEnd.PendingOut() > 0 && !c.dead; k++ {
+				g.deliver(c, 0) // one message
 				g.afterDeliver(c)
 				g.settle()
 			}
@@ -1114,7 +1303,11 @@ func (g *p2pRig) heal() {
 	if g.focus == "C07" {
 		// the two recorded C06 findings (a lagging sync peer that stays; no fresh connection while not current) are
 		// C06's to explore; C07 asks for convergence after a misbehaviour under the plain liveness conditions
-		reconnect = true
+		// (with fresh timestamps the no-reconnect case is free of the second finding and is explored here too: a
+		// service that lost its sync peer to a ban must go on with the candidates it already has)
+		if !g.fresh {
+			reconnect = true
+		}
 		if mode == "others-stay" {
 			mode = "others-follow"
 		}
@@ -1167,7 +1360,7 @@ func (g *p2pRig) heal() {
 			moved := false
 			for _, c := range g.liveConns(nil) {
 				if c.nodeEnd.PendingOut() > 0 {
-					c.nodeEnd.Deliver(0)
+					g.deliver(c, 0)
 					g.afterDeliver(c)
 					moved = true
 					g.settle()
